@@ -37,6 +37,10 @@ func (g *wgen) args(d int) string {
 	for i := 0; i < n; i++ {
 		as = append(as, g.expr(d-1).s)
 	}
+	if g.r.Chance(1, 30) {
+		// a literal argument with a raw control / non-printable character (the passes record argument texts)
+		as = append(as, g.hostileLit())
+	}
 	return "(" + strings.Join(as, ", ") + ")"
 }
 
